@@ -313,13 +313,21 @@ func valueFlowsFrom(v, src ssa.Value) bool {
 // rawGuardedByEither: every φ alternative matching isRaw reaches the merge only via an edge
 // (a1 = t1) or (a2 = t2).
 func rawGuardedByEither(fn *ssa.Function, phi *ssa.Phi, isRaw core.VM, a1 core.Pred, t1 bool, a2 core.Pred, t2 bool) (bool, string) {
+	return rawGuardedByEitherRec(fn, phi, isRaw, a1, t1, a2, t2, map[*ssa.Phi]bool{})
+}
+
+func rawGuardedByEitherRec(fn *ssa.Function, phi *ssa.Phi, isRaw core.VM, a1 core.Pred, t1 bool, a2 core.Pred, t2 bool, seen map[*ssa.Phi]bool) (bool, string) {
+	if seen[phi] {
+		return true, ""
+	}
+	seen[phi] = true
 	for i, e := range phi.Edges {
 		if !core.FeasibleEdgeInto(phi.Block(), i) {
 			continue
 		}
 		ev := core.Strip(e)
 		if p2, ok := ev.(*ssa.Phi); ok {
-			if ok, why := rawGuardedByEither(fn, p2, isRaw, a1, t1, a2, t2); !ok {
+			if ok, why := rawGuardedByEitherRec(fn, p2, isRaw, a1, t1, a2, t2, seen); !ok {
 				return false, why
 			}
 			continue
